@@ -34,6 +34,9 @@ func manifest(out string) int {
 	claimed := map[string]bool{}
 	for _, id := range props.IDs() {
 		p := props.Get(id)
+		if p.Hold != "" {
+			continue
+		}
 		claimed[id] = true
 		checks = append(checks, chk{
 			PropertyID: id,
@@ -52,6 +55,12 @@ func manifest(out string) int {
 	for id, why := range props.NotApplicable {
 		if !claimed[id] {
 			nas = append(nas, na{id, why})
+		}
+	}
+	for _, id := range props.IDs() {
+		if p := props.Get(id); p.Hold != "" {
+			nas = append(nas, na{id, "Check built but withheld: " + p.Hold})
+			claimed[id] = true
 		}
 	}
 	for _, id := range props.Pending {
